@@ -22,6 +22,9 @@ def main():
     elif args and args[0] == "--round3":
         src_root, tag = "/tmp/mut3", "r3"
         args = args[1:]
+    elif args and args[0] == "--round4":
+        src_root, tag = "/tmp/mut4", "r4"
+        args = args[1:]
     only = args
     head = sh("git -C /repo rev-parse --short HEAD")[1].strip()
     for pid in sorted(os.listdir(src_root)):
@@ -52,6 +55,11 @@ def main():
                     rc_t, out_t = sh("timeout 900 /venv/bin/python -m pytest -q -p no:cacheprovider -x 2>&1 | tail -3", cwd=wt, env=env)
                     passed = re.search(r"(\d+) passed", out_t)
                     failed = re.search(r"(\d+) failed", out_t)
+                    if failed:
+                        # the suite has timing-dependent tests that fail now and then on a loaded machine
+                        rc_t, out_t = sh("timeout 900 /venv/bin/python -m pytest -q -p no:cacheprovider 2>&1 | tail -3", cwd=wt, env=env)
+                        passed = re.search(r"(\d+) passed", out_t)
+                        failed = re.search(r"(\d+) failed", out_t)
                     rc_mut, out_mut = sh(f"timeout 300 /venv/bin/python {demo}", cwd=wt, env=env)
                     ok = rc_clean == 0 and rc_mut != 0 and passed and int(passed.group(1)) == 164 and not failed
                     meta.update(status="confirmed" if ok else "NOT-confirmed",
